@@ -59,6 +59,19 @@ TEXT = {
                      "torn prefix at the not-yet-synced points; each image reopened must load the old or the new hard state. RocksDB: "
                      "saved value survives close+reopen.",
             "note": "Exhaustive over hook points x tear lengths for each generated pair; RocksDB power loss is not simulated."},
+    "C15": {"level": "Seeded exploration with real process kills: every lifetime of the state machine is a child process on a real directory "
+                     "(tmpfs); a kill is abort() after an operation or at a guarded crash point inside an engine write; the parent reopens the "
+                     "directory the way a restarting node does, checks applied index vs contents against the reference model of the prefix, "
+                     "re-applies the unreported suffix and checks the result against the model of the whole log.",
+            "note": "Process-crash semantics (what was written survives); power loss below RocksDB / the page cache is not simulated. The "
+                    "node-level path (commit index restarting at the applied index) is replicated by the harness, not executed."},
+    "C22": {"level": "Seeded exploration: generated command sequences and chunkings on the real File and RocksDB state machines, each compared "
+                     "operation by operation with one chunk-independent reference model (so the engines agree with each other and across splits).",
+            "note": "Inputs are decoded Commands (the decode step in command.rs is exercised by the cluster runs, C37)."},
+    "C23": {"level": "Seeded exploration over a virtual wall clock (libc clock seam): TTL puts, overwrites, CAS, deletes, clock advances, cleanup "
+                     "runs, graceful restarts, kills and downtime on the real engines with the real TtlLease; expiry and survival are judged "
+                     "with a 1 s slack around each deadline.",
+            "note": "Snapshot install of TTL state is not covered here (cluster runs use MemSm)."},
     "C26": {"level": _E1 + "Every 25 virtual ms: for every two live nodes that are voters in their own view, no majority of one view is "
                            "disjoint from a majority of the other (closed form over the two voter sets).", "note": _N1},
     "C27": {"level": _E1 + "No vote request or granted vote ever originates from a node whose role is Learner; learners' ACKs are never "
